@@ -145,12 +145,18 @@ func (pq *KeyGroupPriorityQueue) Pop() ([]byte, bool) {
 
 func (pq *KeyGroupPriorityQueue) Push(data []byte) {
 	pq.loadFromDB()
-	pq.cache.Push(data)
 
-	// If pushing the item exceeded the cache capacity, evict items until we're back under the limit
-	for pq.cache.IsFull() && !pq.cache.IsEmpty() {
-		pq.cache.PopLast()
-		pq.allDataInCache = false // evicted item is now only in the DB
+	// While the DB holds items that are not cached, the cache must stay a prefix of the DB order:
+	// an item sorting after the last cached item lives only in the DB until it is loaded.
+	last, ok := pq.cache.PeekLast()
+	if pq.allDataInCache || (ok && bytes.Compare(data, last) <= 0) {
+		pq.cache.Push(data)
+
+		// If pushing the item exceeded the cache capacity, evict items until we're back under the limit
+		for pq.cache.IsFull() && !pq.cache.IsEmpty() {
+			pq.cache.PopLast()
+			pq.allDataInCache = false // evicted item is now only in the DB
+		}
 	}
 
 	pq.db.Put(data, nil) // write-through cache to db
@@ -187,16 +193,17 @@ func (pq *KeyGroupPriorityQueue) loadFromDB() {
 	prefix[2] = 0x01 // Schema byte
 
 	var err error
+	pq.allDataInCache = true
 	for entry := range pq.db.ScanPrefix(prefix, &err) {
-		pq.cache.Push(entry.Key())
-		if pq.cache.IsFull() {
+		if pq.cache.IsFull() && !pq.cache.IsEmpty() {
+			pq.allDataInCache = false // stopped early: the remaining items are only in the DB
 			break
 		}
+		pq.cache.Push(entry.Key())
 	}
 	if err != nil {
 		panic(err)
 	}
-	pq.allDataInCache = true
 }
 
 var _ ds.QueuePartition[[]byte] = &KeyGroupPriorityQueue{}
